@@ -67,6 +67,11 @@ def fmt_epoch(sec: int) -> bytes:
 
 def dt_of(start) -> datetime:
     tz = start.get('tz')
+    if start.get('zone'):
+        # a start time in a zone with daylight saving: 'tz' is the offset in force AT the start instant (used by epoch_of),
+        # the library gets the zone-aware datetime
+        from zoneinfo import ZoneInfo
+        return datetime(*start['ymdhms'], tzinfo=ZoneInfo(start['zone']))
     tzinfo = None if tz is None else timezone.utc if tz == 'utc' else timezone(timedelta(minutes=tz))
     return datetime(*start['ymdhms'], tzinfo=tzinfo)
 
@@ -216,7 +221,8 @@ def run_case(case):
             exp = (fmt_epoch(e0), fmt_epoch(e0 + case['duration']))
             if (nb, na) != exp:
                 # one defect, one key: both entry points format the wall-clock fields of an aware datetime in new_cert
-                key = 'C16:new_cert:validity-utc-offset-ignored' if isinstance(case['start'].get('tz'), int) and case['start']['tz'] != 0 \
+                key = f'C16:{fn}:lifetime-added-to-the-wall-clock-of-a-dst-zone' if case['start'].get('zone') and (nb, na)[0] == exp[0] \
+                    else 'C16:new_cert:validity-utc-offset-ignored' if isinstance(case['start'].get('tz'), int) and case['start']['tz'] != 0 \
                     else f'C16:{fn}:validity'
                 out.append((key, f'[{fn}] validity on the wire {nb.decode(errors="replace")}..{na.decode(errors="replace")} != requested instants '
                                                f'{exp[0].decode()}..{exp[1].decode()} (UTC) for start {case["start"]} + {case["duration"]} s'))
@@ -387,6 +393,16 @@ def gen_cases(tier, seed):
                 if st[0] >= 2199 and dur > 86400:
                     continue
                 cases.append(derive(rng.choice(SUBJECTS), signer(rng.choice(['ed25519', 'p256'])), {'ymdhms': st, 'tz': tz}, dur))
+    # start times in zones with daylight saving, the lifetime reaching across a change of the offset (and two controls that do
+    # not): the requested instants are start and start + lifetime SECONDS, whatever the wall clock of the zone does in between
+    for zone, ymdhms, off, durs in (('America/New_York', [2025, 3, 8, 12, 0, 0], -300, (86400, 3600 * 30, 60)),
+                                    ('America/New_York', [2025, 11, 1, 12, 0, 0], -240, (86400, 86400 * 2)),
+                                    ('Europe/Berlin', [2025, 3, 29, 12, 0, 0], 60, (86400, 86400 * 30)),
+                                    ('Europe/Berlin', [2025, 10, 25, 23, 30, 0], 120, (7200, 86400)),
+                                    ('America/New_York', [2025, 6, 1, 12, 0, 0], -240, (86400,)),
+                                    ('Asia/Tokyo', [2025, 3, 8, 12, 0, 0], 540, (86400,))):
+        for dur in durs:
+            cases.append(derive(rng.choice(SUBJECTS), signer('ed25519'), {'ymdhms': ymdhms, 'tz': off, 'zone': zone}, dur, fn='derive_cert'))
     # the shortest requestable lifetimes, 0 included (NotAfter = NotBefore), for every start instant
     for st in STARTS[::2] if not thorough else STARTS:
         for dur in (0, 1):
